@@ -5,6 +5,7 @@
 -/
 import VerdeModel.Lemmas.CV
 import VerdeModel.Lemmas.Balance
+import VerdeModel.Gen.Utils
 namespace Verde.C11
 open Verde
 
@@ -230,6 +231,67 @@ theorem balancing_lt_1_rejected (labels : List Nat) (n b : Nat) (c : List (List 
   simp [blockShuffleTests, h, bind, Except.bind]
 
 /-- The fixed `partition_by_sum` refuses the D3 input instead of returning the split point 0 (empty first fold). -/
+theorem distinct_length_le (l : List Nat) : (distinct l).length ≤ l.length := by
+  induction l with
+  | nil => simp [distinct]
+  | cons x xs ih => unfold distinct; split_ifs <;> simp <;> omega
+
+theorem distinct_mem (l : List Nat) (y : Nat) : y ∈ distinct l ↔ y ∈ l := by
+  induction l with
+  | nil => simp [distinct]
+  | cons x xs ih =>
+    unfold distinct
+    split_ifs with h
+    · rw [ih]; simp only [List.mem_cons]
+      constructor
+      · exact Or.inr
+      · rintro (rfl | h') <;> [exact (by simpa using h); exact h']
+    · simp [ih]
+
+/-- `numpy.unique(l).size == l.size` exactly when `l` has no repeated value. -/
+theorem npUniqueSize_eq_length_iff (l : List Nat) : npUniqueSize l = l.length ↔ l.Nodup := by
+  unfold npUniqueSize
+  induction l with
+  | nil => simp [distinct]
+  | cons x xs ih =>
+    unfold distinct
+    by_cases h : xs.contains x = true
+    · have hx : x ∈ xs := by simpa using h
+      have hle := distinct_length_le xs
+      simp only [h, if_true, List.length_cons, List.nodup_cons, hx, not_true_eq_false, false_and, iff_false]
+      omega
+    · have hx : x ∉ xs := by simpa using h
+      simp only [h, List.length_cons, List.nodup_cons, hx, not_false_eq_true, true_and, Bool.false_eq_true, if_false]
+      rw [← ih]; omega
+
+/-- **Bridge.**  `partition_by_sum` as regenerated from /repo's source text on every run (numpy primitives read as list functions:
+    `cumsum`, `arange(1, parts) * ideal_sum`, `searchsorted(..., side="right")`, `unique(indices).size != indices.size or
+    (indices.size > 0 and indices[0] == 0)`) equals the model's `partitionBySum` for every input. -/
+theorem gen_partition_by_sum_eq_model (sizes : List Nat) (parts : Nat) :
+    Gen.partitionBySum sizes parts = partitionBySum sizes parts := by
+  unfold Gen.partitionBySum partitionBySum
+  have hidx : ((npArange 1 parts).map (· * ((cumsum sizes).getLastD 0 / parts))).map (searchsortedRight (cumsum sizes))
+      = (List.range (parts - 1)).map fun k => countLe (cumsum sizes) ((k + 1) * ((cumsum sizes).getLastD 0 / parts)) := by
+    unfold npArange searchsortedRight
+    simp only [List.map_map]
+    rfl
+  simp only [hidx]
+  set idx := (List.range (parts - 1)).map fun k => countLe (cumsum sizes) ((k + 1) * ((cumsum sizes).getLastD 0 / parts)) with hI
+  have hcond : ((npUniqueSize idx ≠ idx.length) ∨ (idx.length > 0 ∧ idx.headD 0 = 0))
+      ↔ ((!decide idx.Nodup || idx.head? == some 0) = true) := by
+    rw [Ne, npUniqueSize_eq_length_iff]
+    cases idx with
+    | nil => simp
+    | cons a t => by_cases h : a ∈ t <;> simp [h]
+  by_cases hp : parts > sizes.length
+  · rw [if_pos (Or.inl hp), if_pos hp]
+  · by_cases hc : (!decide idx.Nodup || idx.head? == some 0) = true
+    · rw [if_pos (Or.inr (hcond.mpr hc)), if_neg hp]
+      simp only [hc, if_true]
+    · have hn : ¬ ((npUniqueSize idx ≠ idx.length) ∨ (idx.length > 0 ∧ idx.headD 0 = 0)) := fun h => hc (hcond.mp h)
+      rw [if_neg (not_or.mpr ⟨hp, hn⟩), if_neg hp]
+      simp only [hc, Bool.false_eq_true, if_false]
+
 theorem d3_input_now_rejected : partitionBySum [10, 1, 1] 2 = .error .valueError := by decide +kernel
 
 /-! Non-vacuity -/
